@@ -4233,6 +4233,17 @@ func _select(n *node) {
 			cases[i].Dir = reflect.SelectSend
 			assignedValues[i] = genValue(c0.child[1])
 			clause[i] = func(*frame) bltn { return next }
+		default:
+			// The comm clause has an empty body clause after a channel receive with assignment.
+			chans[i], assigned[i], ok[i], cases[i].Dir = clauseChanDir(c0)
+			chanValues[i] = genValue(chans[i])
+			if assigned[i] != nil {
+				assignedValues[i] = genValue(assigned[i])
+			}
+			if ok[i] != nil {
+				okValues[i] = genValue(ok[i])
+			}
+			clause[i] = func(*frame) bltn { return next }
 		}
 	}
 
